@@ -26,7 +26,8 @@ SettleAll(Pr, s) ==
 
 Init == pid \in 1..Len(Progs) /\ st = S0(Progs[pid])
 
-Step(a) == st.ph[a] = "run" /\ (P.gran = "mc" => EnabledMC(P, st, a)) /\ st' = SettleAll(P, Handle(P, st, a))
+Step(a) == /\ st.ph[a] = "run" /\ (P.gran = "mc" => EnabledMC(P, st, a))
+           /\ \E v \in Choices(P, st, a) : st' = SettleAll(P, Handle(P, Chosen(P, st, a, v), a))
 Fire(a) == CanFire(st, a) /\ st' = SettleAll(P, FireTimer(P, st, a))
 Comp(c) == P.gran # "mc" /\ CanComplete(st, c) /\ st' = SettleAll(P, Complete(P, st, c))
 KillT(a) == KillDue(st, a) /\ st' = SettleAll(P, KillActor(P, st, a))
